@@ -132,79 +132,102 @@ fn c09_exits(sim: &mut Sim, rng: &mut Rng, idx: usize, out: &mut Vec<Violation>)
     exits_must_succeed(sim, rng, idx, out);
 }
 
-/// every holder can unbond, the request is undelegated after the epoch, the claim is paid
-/// after the unbonding period
+/// every holder can unbond, the request is undelegated by the first unbond after the epoch,
+/// and each claim is paid once *its own* batch's unbonding period has passed — exercised with
+/// two consecutive batches so that one matures while the other is still unbonding
 pub fn exits_must_succeed(sim: &mut Sim, rng: &mut Rng, idx: usize, out: &mut Vec<Violation>) {
     let mut c = child_of(sim);
     c.stats.check("c09_exit_fork");
-    let mut unbonded_any = false;
-    for tok in [Tok::B, Tok::St] {
-        let holders: Vec<(String, u128)> = c.obs.t(tok).map(|t| t.bal.iter().filter(|(a, _)| a.starts_with("user") || a.as_str() == INTRUDER).map(|(a, b)| (a.clone(), *b)).collect()).unwrap_or_default();
-        for (u, b) in holders {
-            let amt = match rng.below(3) {
-                0 => b,
-                1 => 1,
-                _ => rng.range128(1, b),
-            };
-            let o = c.apply(&tx_step(Op::Send { tok, from: u.clone(), to: HUB.into(), amount: amt.into(), hook: Hook::Unbond })).unwrap();
-            if !o.ok {
-                viol(out, "C09", "holder_can_always_unbond", idx, "hub.unbond:must_succeed", format!("{} could not unbond {} of its {} {:?}: {}", u, amt, b, tok, o.err.unwrap_or_default()));
-            } else {
-                unbonded_any = true;
+    let holders_of = |c: &Sim, tok: Tok| -> Vec<(String, u128)> { c.obs.t(tok).map(|t| t.bal.iter().filter(|(a, b)| (a.starts_with("user") || a.as_str() == INTRUDER) && **b > 0).map(|(a, b)| (a.clone(), *b)).collect()).unwrap_or_default() };
+    let unbond_round = |c: &mut Sim, rng: &mut Rng, out: &mut Vec<Violation>, allow_full: bool, label: &str| -> usize {
+        let mut n = 0;
+        for tok in [Tok::B, Tok::St] {
+            for (u, b) in holders_of(c, tok) {
+                let amt = match rng.below(4) {
+                    0 if allow_full => b,
+                    1 => 1,
+                    2 => (b / 2).max(1),
+                    _ => rng.range128(1, b),
+                };
+                let o = c.apply(&tx_step(Op::Send { tok, from: u.clone(), to: HUB.into(), amount: amt.into(), hook: Hook::Unbond })).unwrap();
+                if !o.ok {
+                    viol(out, "C09", "holder_can_always_unbond", idx, "hub.unbond:must_succeed", format!("{}: {} could not unbond {} of its {} {:?}: {}", label, u, amt, b, tok, o.err.unwrap_or_default()));
+                } else {
+                    n += 1;
+                }
             }
         }
-    }
-    if !unbonded_any && c.obs.hub.as_ref().map(|h| h.requests.is_empty()).unwrap_or(true) {
-        absorb(sim, c, idx, out);
-        return;
-    }
-    // advance past the epoch; the next unbond must undelegate the pending requests
-    let ep = c.obs.hub.as_ref().map(|h| h.params.epoch_period).unwrap_or(0);
-    c.apply(&Step::Block { dt: ep + 1 });
-    let pending = c.obs.hub.as_ref().map(|h| !h.batch.requested_bsei_with_fee.is_zero() || !h.batch.requested_stsei.is_zero()).unwrap_or(false);
-    let hist0 = c.obs.hub.as_ref().map(|h| h.history.len()).unwrap_or(0);
-    let mut closer: Option<(Tok, String)> = None;
-    for tok in [Tok::St, Tok::B] {
-        if let Some(t) = c.obs.t(tok) {
-            if let Some((a, _)) = t.bal.iter().find(|(a, b)| a.starts_with("user") && **b > 0) {
-                closer = Some((tok, a.clone()));
-                break;
+        n
+    };
+    let withdraw_round = |c: &mut Sim, out: &mut Vec<Violation>, label: &str| {
+        // everyone the ledger (fed from call trees) knows as a claimant tries, twice: the first
+        // pass may fail for users whose turn comes before anything was released
+        let claimants: BTreeSet<String> = c.mon.claims.keys().map(|k| k.0.clone()).collect();
+        for _pass in 0..2 {
+            for u in &claimants {
+                c.apply(&tx_step(Op::Withdraw { user: u.clone(), attach: 0u128.into() }));
             }
         }
-    }
-    if let Some((tok, u)) = closer {
-        let o = c.apply(&tx_step(Op::Send { tok, from: u.clone(), to: HUB.into(), amount: 1u128.into(), hook: Hook::Unbond })).unwrap();
-        let hist1 = c.obs.hub.as_ref().map(|h| h.history.len()).unwrap_or(0);
-        if !o.ok {
-            viol(out, "C09", "holder_can_always_unbond", idx, "hub.unbond:must_succeed_after_epoch", format!("{} could not unbond 1 {:?} after the epoch: {}", u, tok, o.err.unwrap_or_default()));
-        } else if hist1 != hist0 + 1 {
-            viol(out, "C09", "first_unbond_after_epoch_undelegates", idx, "hub.unbond:no_undelegation_after_epoch", format!("unbond after the epoch period did not close the batch (pending={})", pending));
-        }
-    }
-    // advance past the unbonding period; every claimant whose claim is worth >= 1 is paid
-    let up = c.obs.hub.as_ref().map(|h| h.params.unbonding_period).unwrap_or(0);
-    c.apply(&Step::Block { dt: up });
-    let claimants: Vec<String> = c.obs.hub.as_ref().map(|h| h.requests.keys().cloned().collect()).unwrap_or_default();
-    let mut failed: Vec<(String, String)> = vec![];
-    for u in &claimants {
-        let o = c.apply(&tx_step(Op::Withdraw { user: u.clone(), attach: 0u128.into() })).unwrap();
-        if !o.ok {
-            failed.push((u.clone(), o.err.unwrap_or_default()));
-        }
-    }
-    if let Some(h) = &c.obs.hub {
-        for (u, e) in &failed {
-            if let Some(rs) = h.requests.get(u) {
-                let (v, _) = released_claim_value(rs, &h.history);
+        if let Some(h) = c.obs.hub.clone() {
+            let mut per_user: BTreeMap<String, Vec<(u64, u128, u128)>> = BTreeMap::new();
+            for ((u, b), v) in &c.mon.claims {
+                per_user.entry(u.clone()).or_default().push((*b, v.0, v.1));
+            }
+            for (u, rs) in per_user {
+                let (v, batches) = released_claim_value(&rs, &h.history);
                 if v >= 1 {
-                    // retry: it may have failed only because nothing was released yet
                     let o = crate::wasm::run_tx(&c.w, &Op::Withdraw { user: u.clone(), attach: 0u128.into() }.to_tx(), None).1;
                     if !o.ok {
-                        viol(out, "C09", "matured_claim_is_withdrawable", idx, "hub.WithdrawUnbonded:must_succeed_in_exit", format!("{} holds a matured claim worth {} but cannot withdraw: {} / {}", u, v, e, o.err.unwrap_or_default()));
+                        viol(out, "C09", "matured_claim_is_withdrawable", idx, "hub.WithdrawUnbonded:must_succeed_in_exit", format!("{}: {} unbonded into batches {:?}, now released and worth {}, but WithdrawUnbonded fails: {}", label, u, batches, v, o.err.unwrap_or_default()));
                     }
                 }
             }
         }
+    };
+    let hist_len = |c: &Sim| c.obs.hub.as_ref().map(|h| h.history.len()).unwrap_or(0);
+    let ep = c.obs.hub.as_ref().map(|h| h.params.epoch_period).unwrap_or(0);
+    let up = c.obs.hub.as_ref().map(|h| h.params.unbonding_period).unwrap_or(0);
+    // round 1: requests into the open batch
+    let allow_full = rng.chance(1, 3);
+    let n1 = unbond_round(&mut c, rng, out, allow_full, "round 1");
+    if n1 == 0 && c.mon.claims.is_empty() {
+        absorb(sim, c, idx, out);
+        return;
+    }
+    // round 2, after the epoch: the first unbond must close the batch, the others open the next
+    c.apply(&Step::Block { dt: ep + 1 });
+    let h0 = hist_len(&c);
+    let n2 = unbond_round(&mut c, rng, out, false, "round 2 (after the epoch)");
+    if n2 > 0 && hist_len(&c) != h0 + 1 {
+        viol(out, "C09", "first_unbond_after_epoch_undelegates", idx, "hub.unbond:no_undelegation_after_epoch", format!("{} unbonds after the epoch period closed {} batches (expected exactly one)", n2, hist_len(&c) - h0));
+    }
+    let t1 = c.w.time;
+    // round 3, one epoch later: closes the second batch
+    c.apply(&Step::Block { dt: ep + 1 });
+    let h1 = hist_len(&c);
+    let mut closed2 = false;
+    'outer: for tok in [Tok::St, Tok::B] {
+        for (u, _) in holders_of(&c, tok) {
+            let o = c.apply(&tx_step(Op::Send { tok, from: u.clone(), to: HUB.into(), amount: 1u128.into(), hook: Hook::Unbond })).unwrap();
+            if !o.ok {
+                viol(out, "C09", "holder_can_always_unbond", idx, "hub.unbond:must_succeed_after_epoch", format!("{} could not unbond 1 {:?} after the epoch: {}", u, tok, o.err.unwrap_or_default()));
+            } else {
+                closed2 = true;
+                if hist_len(&c) != h1 + 1 {
+                    viol(out, "C09", "first_unbond_after_epoch_undelegates", idx, "hub.unbond:no_undelegation_after_epoch", "an unbond after the epoch period did not close the batch".into());
+                }
+                break 'outer;
+            }
+        }
+    }
+    // the first batch matures (exactly on its boundary second) while the second is still unbonding
+    let now = c.w.time;
+    c.apply(&Step::Block { dt: (t1 + up).saturating_sub(now) });
+    withdraw_round(&mut c, out, "first batch matured");
+    if closed2 {
+        c.stats.probe("c09_two_batch_window");
+        c.apply(&Step::Block { dt: ep + 1 + rng.range(0, 2) });
+        withdraw_round(&mut c, out, "second batch matured");
     }
     absorb(sim, c, idx, out);
 }
